@@ -561,7 +561,7 @@ impl<'ast, 'r, 'a> Visit<'ast> for Collector<'r, 'a> {
     fn visit_stmt(&mut self, s: &'ast syn::Stmt) {
         match s {
             syn::Stmt::Item(_) => {} // nested items are extracted on their own
-            syn::Stmt::Local(l) if self.rw.on("R3") || self.rw.on("R16") || self.rw.on("R3f") || self.rw.on("R17") => {
+            syn::Stmt::Local(l) if self.rw.on("R3") || self.rw.on("R16") || self.rw.on("R3f") || self.rw.on("R17") || self.rw.on("R26") => {
                 if self.rw.on("R16") {
                     if let Some(t) = self.try_r16(l) {
                         self.edits.push(Edit { range: rng(s), text: t, prio: 0 });
@@ -570,6 +570,12 @@ impl<'ast, 'r, 'a> Visit<'ast> for Collector<'r, 'a> {
                 }
                 if self.rw.on("R17") {
                     if let Some(t) = self.try_r17(l) {
+                        self.edits.push(Edit { range: rng(s), text: t, prio: 0 });
+                        return;
+                    }
+                }
+                if self.rw.on("R26") {
+                    if let Some(t) = self.try_r26(l) {
                         self.edits.push(Edit { range: rng(s), text: t, prio: 0 });
                         return;
                     }
@@ -723,6 +729,31 @@ impl<'ast, 'r, 'a> Visit<'ast> for Collector<'r, 'a> {
                 self.rw.log.push(format!("R18 .entry(k).or_insert_with(counter closure) -> __entry_or_insert_counter (counter `{c_name}`)"));
                 self.edits.push(Edit { range: rng(e), text: format!("__entry_or_insert_counter(&mut {map}, {k}, &mut {c_name})"), prio: 0 });
             }
+            // R25: M.retain(|k, _| !N.contains_key(k))  ->  __map_retain_not_in(&mut M, &N)   (closure matched literally)
+            syn::Expr::MethodCall(m) if m.method == "retain" && self.rw.on("R25") && m.args.len() == 1 && matches!(m.args[0], syn::Expr::Closure(_)) => {
+                let cl = match &m.args[0] {
+                    syn::Expr::Closure(c) => c,
+                    _ => unreachable!(),
+                };
+                let body = norm(self.rw.text(&*cl.body));
+                let params: Vec<String> = cl.inputs.iter().map(|p| norm(self.rw.text(p))).collect();
+                let ok = params.len() == 2 && params[1] == "_" && body.starts_with('!') && body.ends_with(&format!(".contains_key({})", params[0]));
+                if !ok {
+                    die("unsupported", &format!("{}: R25 side condition: retain closure is not `|k, _| !N.contains_key(k)`", self.rw.fn_path));
+                }
+                let n = body[1..body.len() - format!(".contains_key({})", params[0]).len()].to_string();
+                let map = self.render(&m.receiver);
+                self.rw.log.push("R25 .retain(|k, _| !N.contains_key(k)) -> __map_retain_not_in".to_string());
+                self.edits.push(Edit { range: rng(e), text: format!("__map_retain_not_in(&mut {map}, &{n})"), prio: 0 });
+            }
+            // R28: a closure whose single parameter is a tuple pattern, passed as an argument:
+            //   |(a, _)| B  ->  |__p| { let (a, _) = __p; B }     (Verus only takes plain names as closure parameters)
+            syn::Expr::Closure(cl) if self.rw.on("R28") && cl.inputs.len() == 1 && matches!(cl.inputs[0], syn::Pat::Tuple(_)) && cl.capture.is_none() => {
+                let pat = self.rw.text(&cl.inputs[0]).to_string();
+                let body = self.render(&cl.body);
+                self.rw.log.push(format!("R28 closure parameter pattern {pat} -> let inside the body"));
+                self.edits.push(Edit { range: rng(e), text: format!("|__p| {{ let {pat} = __p; {body} }}"), prio: 0 });
+            }
             // R12: M.entry(K).or_default().insert(V)  ->  __entry_or_default_insert(M, K, V)
             // side condition: M is a `&mut` binding (implicit reborrow; rustc rejects anything else)
             syn::Expr::MethodCall(m)
@@ -779,6 +810,38 @@ impl<'ast, 'r, 'a> Visit<'ast> for Collector<'r, 'a> {
                 self.edits.push(Edit { range: rng(e), text: format!("__rb_or_assign(&mut {l}, &{r})"), prio: 0 });
             }
             syn::Expr::ForLoop(f) => {
+                // R24: `for (_, V) in M.iter_mut() { BODY }` -> `for __k in __map_keys(&M) { if let Some(V) = M.get_mut(&__k) { BODY } }`
+                if self.rw.on("R24") {
+                    if let Some(im) = is_method(&f.expr, "iter_mut") {
+                        if let syn::Pat::Tuple(t) = &*f.pat {
+                            if t.elems.len() == 2 && matches!(&t.elems[0], syn::Pat::Wild(_)) {
+                                if let syn::Pat::Ident(v) = &t.elems[1] {
+                                    let m = self.render(&im.receiver);
+                                    let vname = v.ident.to_string();
+                                    let pr = rng(&*f.pat);
+                                    let er = rng(&*f.expr);
+                                    let key = format!("{}", self.rw.native_loops);
+                                    self.rw.native_loops += 1;
+                                    let (iter, hdr, bs, be) = self.rw.loop_parts(&key);
+                                    self.edits.push(Edit { range: pr.clone(), text: "__k".to_string(), prio: 0 });
+                                    self.edits.push(Edit { range: er.clone(), text: format!("{iter}__map_keys(&{m})"), prio: 0 });
+                                    let open = f.body.brace_token.span.open().byte_range();
+                                    let close = f.body.brace_token.span.close().byte_range();
+                                    if !hdr.is_empty() {
+                                        self.edits.push(Edit { range: open.start..open.start, text: hdr, prio: 0 });
+                                    }
+                                    self.edits.push(Edit { range: open.end..open.end, text: format!(" {bs} if let Some({vname}) = {m}.get_mut(&__k) {{"), prio: -8 });
+                                    self.edits.push(Edit { range: close.start..close.start, text: format!("}} {be}\n"), prio: 8 });
+                                    self.rw.log.push(format!("R24 loop {key}: for (_, {vname}) in {m}.iter_mut() -> loop over __map_keys + get_mut"));
+                                    for st in &f.body.stmts {
+                                        self.visit_stmt(st);
+                                    }
+                                    return;
+                                }
+                            }
+                        }
+                    }
+                }
                 self.loop_native(Some(&f.expr), &f.body);
                 visit::visit_expr(self, e);
             }
@@ -898,6 +961,51 @@ impl<'r, 'a> Collector<'r, 'a> {
         let bm = self.render(&it.receiver);
         self.rw.log.push(format!("R17 let {name} = RoaringBitmap::from_sorted_iter(B.iter().filter(..)).unwrap() -> loop {key}"));
         Some(format!("let __flt_{name} = {clos}; let mut {name}: RoaringBitmap = RoaringBitmap::default(); for __e in {iter}__rb_vec(&({bm})) {hdr}{{ {bs}if __flt_{name}(&__e) {{ {name}.insert(__e); }} {be}}}"))
+    }
+
+    /// R26: `let x[: UstrMap<T>] = M.iter()[.filter(|P1| C)].map(|(a, b)| (K, V)).collect();`  (M a UstrMap)
+    ///  -> `let mut x: UstrMap<_> = UstrMap::default(); for __e in __map_entries(&M) { [let __keep = { let P1 = &__e; C }; if __keep] { let (a, b) = __e; x.insert(K, V); } }`
+    fn try_r26(&mut self, l: &syn::Local) -> Option<String> {
+        let init = l.init.as_ref()?;
+        if init.diverge.is_some() {
+            return None;
+        }
+        let (name, ty) = self.local_name_ty(l)?;
+        let coll = is_method(&init.expr, "collect")?;
+        let mp = is_method(&coll.receiver, "map")?;
+        let cl = match mp.args.get(0) {
+            Some(syn::Expr::Closure(c)) if c.inputs.len() == 1 => c,
+            _ => return None,
+        };
+        // the mapped value must be a pair: (K, V)
+        let (k, v) = match &*cl.body {
+            syn::Expr::Tuple(t) if t.elems.len() == 2 => (self.render(&t.elems[0]), self.render(&t.elems[1])),
+            _ => return None,
+        };
+        let (recv, filt) = match is_method(&mp.receiver, "filter") {
+            Some(f) => match f.args.get(0) {
+                Some(syn::Expr::Closure(c)) if c.inputs.len() == 1 && c.capture.is_none() && !closure_has_control_flow(&c.body) => (&*f.receiver, Some(c)),
+                _ => return None,
+            },
+            None => (&*mp.receiver, None),
+        };
+        let it = is_method(recv, "iter")?;
+        if let Some(t) = &ty {
+            if !t.replace(' ', "").starts_with("UstrMap<") {
+                return None;
+            }
+        }
+        let key = self.rw.next_key("R26");
+        let (iter, hdr, bs, be) = self.rw.loop_parts(&key);
+        let m = self.render(&it.receiver);
+        let pat = self.rw.text(&cl.inputs[0]).to_string();
+        let guard = match filt {
+            Some(c) => format!("let __keep = {{ let {} = &__e; {} }}; if __keep ", self.rw.text(&c.inputs[0]), self.render(&c.body)),
+            None => String::new(),
+        };
+        let vec_ty = ty.unwrap_or_else(|| "UstrMap<_>".to_string());
+        self.rw.log.push(format!("R26 let {name} = M.iter()[.filter(..)].map(..).collect() into a UstrMap -> loop {key}"));
+        Some(format!("let mut {name}: {vec_ty} = UstrMap::default(); for __e in {iter}__map_entries(&{m}) {hdr}{{ {bs}{guard}{{ let {pat} = __e; {name}.insert({k}, {v}); }} {be}}}"))
     }
 
     /// R3f: `let x: Vec<T> = ITER.filter(CL).cloned().collect();`
